@@ -94,6 +94,11 @@ def obsLine (ts : List String) : String :=
     let ok := WD.ProofsObs.runOk (init clients cbs ems) idxSched
     let oneD := decide ((fin.threads.filter (fun (t : Thread) => t.kind == Kind.dispatcher)).length ≤ 1)
     let left := fin.threads.filter (fun (t : Thread) => t.pc != Pc.done) |>.map (fun (t : Thread) => t.name)
-    some (" ".intercalate lines ++ " | " ++ " ".intercalate ((fin.hist.map obsShow).filter (· != "")) ++ " | left=[" ++ ",".intercalate left ++ "]" ++ s!" # runOk={b01 ok} oneDispatcher={b01 oneD}")).getD "bad-op"
+    -- the hypotheses and conclusions of the global theorems of WD.Props.C06, evaluated on the final state
+    let quiescent := (List.range fin.threads.length).all (fun ti => !enabled fin ti)
+    let idle := fin.threads.all (fun (t : Thread) => match t.pc with | .done | .joinD | .dWait | .eWait => true | _ => false)
+    let stopOk := fin.hist.contains (Obs.did .stop "ok")
+    let regEmpty := fin.regEm.isEmpty
+    some (" ".intercalate lines ++ " | " ++ " ".intercalate ((fin.hist.map obsShow).filter (· != "")) ++ " | left=[" ++ ",".intercalate left ++ "]" ++ s!" # runOk={b01 ok} oneDispatcher={b01 oneD} quiescent={b01 quiescent} idle={b01 idle} stopOk={b01 stopOk} regEmpty={b01 regEmpty} allDone={b01 left.isEmpty}")).getD "bad-op"
 
 end WD.Driver
